@@ -52,7 +52,14 @@ def run_one(k, slot, rel, kind, lineno, old, new, props):
     copy = os.path.join(SCRATCH, "slot%d" % slot)
     sh("git checkout -q -- . ", copy)
     p = os.path.join(copy, rel)
-    if old is None:
+    if kind == "renamefunc":
+        # rename an unexported top-level function throughout its package directory
+        d = os.path.dirname(p)
+        r = sh("gofmt -r '%s -> %sZz' -w *.go" % (old, old), d)
+        if r.returncode != 0:
+            return dict(k=k, status="skipped")
+        old, new = "func " + old, "func " + old + "Zz"
+    elif old is None:
         # AST-level rewrite: `lineno` is the site index of `kind`
         r = subprocess.run([os.path.join(VERIF, "bin", "rewrite"), "-file", p, "-kind", kind, "-n", str(lineno)], capture_output=True, text=True)
         if r.returncode != 0:
@@ -106,6 +113,11 @@ def main():
                 kind, cnt = line.split()
                 for i in range(int(cnt)):
                     bykind.setdefault(kind, []).append((f, kind, i, None, None))
+        if os.environ.get("EQUIV_RENAMEFUNC"):
+            for f in files:
+                for m in re.finditer(r"^func ([a-z]\w*)\(", open(os.path.join("/repo", f)).read(), re.M):
+                    if m.group(1) not in ("main", "init"):
+                        bykind.setdefault("renamefunc", []).append((f, "renamefunc", 0, m.group(1), None))
         weights = json.loads(os.environ.get("EQUIV_WEIGHTS", "null")) or {"rename": 0.15, "tmpret": 0.12, "flip": 0.12, "swap": 0.08, "ifelse": 0.04, "incr": 0.04, "opassign": 0.04, "extract": 0.14, "splitdecl": 0.09, "varform": 0.09, "rangeidx": 0.09}
         for kind, lst in bykind.items():
             random.shuffle(lst)
